@@ -140,11 +140,14 @@ class Requestant(httping.Parsent):
             self.version = (1, 1)  # use HTTP/1.1 code for HTTP/1.x where x>=1
 
 
-        pathSplits = urlsplit(self.url)
-        self.path = unquote(pathSplits.path)  # unquote non query path portion here
-        self.scheme = pathSplits.scheme
-        self.hostname = pathSplits.hostname
-        self.port = pathSplits.port
+        try:
+            pathSplits = urlsplit(self.url)
+            self.path = unquote(pathSplits.path)  # unquote non query path portion here
+            self.scheme = pathSplits.scheme
+            self.hostname = pathSplits.hostname
+            self.port = pathSplits.port
+        except ValueError as ex:  # bad brackets or port in request url
+            raise httping.InvalidURL("Invalid request url '{0}': {1}".format(self.url, ex))
         self.query = pathSplits.query  # WSGI spec leaves it quoted do not unquote
         self.fragment = pathSplits.fragment
 
